@@ -168,4 +168,28 @@ theorem C03_keepall_keeps (k : Const) (ctx : Instr)
     cases ctx.kind <;> simp [keepAllLiteralsPolicy]
     all_goals (split <;> rename_i heq <;> split at heq <;> simp_all)
 
+/-- ... and no integer at all: a constant that does not fit an int64 (a `uint64` above `MaxInt64`) is kept
+    too (fix "KeepAllLiteralsPolicy keeps integer constants that do not fit an int64") -/
+theorem C03_keepall_keeps_every_integer (k : Const) (ctx : Instr) (hk : k.kind = .int)
+    (h : k.fits64 = true → -9223372036854775808 ≤ k.i64 ∧ k.i64 ≤ 9223372036854775807) :
+    keepAllLiteralsPolicy.shouldAbstract k ctx = false := by
+  have hs : keepAllLiteralsPolicy.isSmallInt k = true := by
+    by_cases hf : k.fits64 = true
+    · obtain ⟨hlo, hhi⟩ := h hf
+      simp [LiteralPolicy.isSmallInt, hk, hf, keepAllLiteralsPolicy, hlo, hhi]
+    · simp [LiteralPolicy.isSmallInt, hk, hf, keepAllLiteralsPolicy]
+  unfold LiteralPolicy.shouldAbstract
+  simp only [hk, hs]
+  unfold LiteralPolicy.contextRule LiteralPolicy.indexCase
+  cases ctx.kind <;> simp [keepAllLiteralsPolicy]
+  all_goals (split <;> rename_i heq <;> split at heq <;> simp_all)
+
+/-- the old rule abstracted such a constant even under KeepAll -/
+theorem C03_keepall_big_constants_were_abstracted :
+    ∃ k : Const, k.kind = .int ∧ k.fits64 = false ∧
+      (k.kind == .int && k.fits64 && decide (keepAllLiteralsPolicy.smallIntMin ≤ k.i64)
+        && decide (k.i64 ≤ keepAllLiteralsPolicy.smallIntMax)) = false :=
+  ⟨{ kind := .int, text := "9223372036854775809", bytes := [], typ := "uint64", fits64 := false, i64 := 0,
+     cid := .ptr 0 }, rfl, rfl, rfl⟩
+
 end Sfw.Canon
